@@ -587,14 +587,20 @@ func (m *Machine) intrinsic(name string, fn *ssa.Function, args []Value) (Value,
 			if m.onceRunning != nil {
 				delete(m.onceRunning, key)
 			}
+			m.hbRelease(m.cur, key)
+		} else {
+			m.hbAcquire(m.cur, key)
 		}
 		return nil, true
 	case "(*sync/atomic.Value).Store":
 		m.park(&Op{kind: opAtomic})
+		m.hbAcquire(m.cur, m.syncKey(args[0]))
 		m.atomicVals[m.syncKey(args[0])] = args[1]
+		m.hbRelease(m.cur, m.syncKey(args[0]))
 		return nil, true
 	case "(*sync/atomic.Value).Load":
 		m.park(&Op{kind: opAtomic})
+		m.hbAcquire(m.cur, m.syncKey(args[0]))
 		if v, ok := m.atomicVals[m.syncKey(args[0])]; ok {
 			return v, true
 		}
@@ -602,15 +608,26 @@ func (m *Machine) intrinsic(name string, fn *ssa.Function, args []Value) (Value,
 	case "sync/atomic.AddInt64", "sync/atomic.AddUint64", "sync/atomic.AddInt32", "sync/atomic.AddUint32":
 		m.park(&Op{kind: opAtomic})
 		p := args[0]
+		m.hbAcquire(m.cur, hbKeyOf(p))
+		m.atomicAccess = true
 		nv := Bin("bvadd", m.load(p).(*Term), args[1].(*Term))
 		m.store(p, nv)
+		m.atomicAccess = false
+		m.hbRelease(m.cur, hbKeyOf(p))
 		return nv, true
 	case "sync/atomic.LoadInt64", "sync/atomic.LoadUint64", "sync/atomic.LoadInt32", "sync/atomic.LoadUint32":
 		m.park(&Op{kind: opAtomic})
-		return m.load(args[0]), true
+		m.hbAcquire(m.cur, hbKeyOf(args[0]))
+		m.atomicAccess = true
+		v := m.load(args[0])
+		m.atomicAccess = false
+		return v, true
 	case "sync/atomic.StoreInt64", "sync/atomic.StoreUint64", "sync/atomic.StoreInt32", "sync/atomic.StoreUint32":
 		m.park(&Op{kind: opAtomic})
+		m.atomicAccess = true
 		m.store(args[0], args[1])
+		m.atomicAccess = false
+		m.hbRelease(m.cur, hbKeyOf(args[0]))
 		return nil, true
 	case "time.Unix": // integer-nanosecond model: Time{wall:0, ext:ns, loc:nil}
 		return m.timeStruct(fn, Bin("bvadd", Bin("bvmul", args[0].(*Term), BV(64, 1000000000)), args[1].(*Term))), true
